@@ -175,6 +175,17 @@ func runC19(t *simrt.Tape, o Opts) Outcome {
 		}
 		p := w.NewProc(pol)
 		svc := server.NewAppEncryptionWithFactory(p.Factory)
+		// the metastore and the KMS behind the sidecar may answer slowly (up to tens of seconds on the
+		// simulated clock): a request simply takes that long, its reply is still its own
+		if !swept && t.Choose(3, "slow-backends") == 1 {
+			w.Faults.Kinds["latency"] = true
+			w.LatencyMenu = []time.Duration{time.Millisecond, time.Second, 3 * time.Second, 30 * time.Second}
+		}
+		// the prepared genuine records may be records of an empty payload (a valid plaintext)
+		priorClass := 2
+		if t.Choose(4, "prior-record.empty-payload") == 1 {
+			priorClass = 0
+		}
 		// one run in eight goes through the service's own constructor (its own in-memory metastore,
 		// static KMS and memguard secrets) instead of the simulated deployment: what is checked there is
 		// the sidecar against itself
@@ -213,7 +224,7 @@ func runC19(t *simrt.Tape, o Opts) Outcome {
 		// material prepared beforehand: a genuine record per partition
 		mk := func(part string) (*world.Rec, *world.Sess) {
 			if ownCtor {
-				pl := w.Payload(2)
+				pl := w.Payload(priorClass)
 				resp := call(getSession(part), &pb.SessionRequest{Request: &pb.SessionRequest_Encrypt{Encrypt: &pb.Encrypt{Data: pl}}})
 				if len(resp) != 2 || resp[1].GetEncryptResponse() == nil {
 					return nil, nil
@@ -224,7 +235,7 @@ func runC19(t *simrt.Tape, o Opts) Outcome {
 			if err != nil {
 				return nil, nil
 			}
-			rec, _ := w.Encrypt(se, w.Payload(2))
+			rec, _ := w.Encrypt(se, w.Payload(priorClass))
 			return rec, se
 		}
 		// partition ids are caller-supplied free text: long ones that agree in their first 64 bytes, and
@@ -330,6 +341,9 @@ func runC19(t *simrt.Tape, o Opts) Outcome {
 					r = &pb.SessionRequest{Request: &pb.SessionRequest_GetSession{GetSession: &pb.GetSession{PartitionId: ""}}}
 				case rqEncrypt:
 					pl := []byte(fmt.Sprintf("stream%d-msg%d-payload", idx, i))
+					if (idx+i)%4 == 3 {
+						pl = []byte{} // an empty payload is a valid plaintext
+					}
 					payloads[i] = pl
 					r = &pb.SessionRequest{Request: &pb.SessionRequest_Encrypt{Encrypt: &pb.Encrypt{Data: pl}}}
 				case rqDecGenuine:
